@@ -16,22 +16,22 @@ type Violation struct {
 
 // Result is what one stream run reports to ./check.
 type Result struct {
-	Stream             string         `json:"stream"`
-	Seed               int64          `json:"seed"`
-	Tier               string         `json:"tier"`
-	Evaluations        int            `json:"evaluations"`
-	DistinctNontrivial int            `json:"distinct_nontrivial"`
-	Rule               string         `json:"rule"`
-	Exhaustive         bool           `json:"exhaustive"`
-	Samples            []any          `json:"samples"`
-	Distribution       map[string]int `json:"distribution"`
-	NDisagreements     int            `json:"n_disagreements"`
-	Disagreements      []Disagreement `json:"disagreements"`
-	Violations         []Violation    `json:"violations"`
-	KnownHits          map[string]int `json:"known_hits"`
+	Stream             string                 `json:"stream"`
+	Seed               int64                  `json:"seed"`
+	Tier               string                 `json:"tier"`
+	Evaluations        int                    `json:"evaluations"`
+	DistinctNontrivial int                    `json:"distinct_nontrivial"`
+	Rule               string                 `json:"rule"`
+	Exhaustive         bool                   `json:"exhaustive"`
+	Samples            []any                  `json:"samples"`
+	Distribution       map[string]int         `json:"distribution"`
+	NDisagreements     int                    `json:"n_disagreements"`
+	Disagreements      []Disagreement         `json:"disagreements"`
+	Violations         []Violation            `json:"violations"`
+	KnownHits          map[string]int         `json:"known_hits"`
 	KnownExamples      map[string][]Violation `json:"known_examples,omitempty"`
-	Notes              []string       `json:"notes"`
-	WallS              float64        `json:"wall_s"`
+	Notes              []string               `json:"notes"`
+	WallS              float64                `json:"wall_s"`
 }
 
 func newResult(stream string, seed int64, tier string) *Result {
